@@ -237,7 +237,9 @@ def run_equality(payload):
         objs, rows = [], []
         for it in group["members"]:
             try:
-                cs = [c for c in get_citations(it["text"]) if type(c).__name__ == it["cls"]]
+                # (a member may ask for another tokenizer: equality must not depend on how the citation was found)
+                found = get_citations(it["text"], tokenizer=tokenizer(it["tok"])) if it.get("tok") else get_citations(it["text"])
+                cs = [c for c in found if type(c).__name__ == it["cls"]]
             except Exception as ex:  # noqa: BLE001
                 cs = []
             c = cs[it.get("nth", 0)] if len(cs) > it.get("nth", 0) else None
